@@ -25,6 +25,9 @@ func RunC06(c *Ctx, r *Report) {
 	r.Func(c.FuncName(em))
 	c.protectTotality(r, prefix)
 	c.registryLengthRules(r, prefix)
+	// the algorithms applied are the negotiated ones: a received transform resolves to the descriptor registered for it
+	c.registryRules(r, prefix+"registry.integ.", "security/integ")
+	c.registryRules(r, prefix+"registry.encr.", "security/encr")
 	// the Encrypted payload is appended to a list built from nothing: were the old list's storage kept, the SK
 	// payload would overwrite the first inner payload of a list the caller still uses for the next message
 	c.protectListFreshRule(r, prefix+"protect.list-rebuilt-from-nil", em)
